@@ -163,12 +163,15 @@ def opRun : P (List String) := do
   let tr ← nat
   let script ← flts
   let aff ← flts
+  let vshape ← optNat 0
   let N := numVertices rc.starts rc.ends
+  let (vr, vc) : Nat × Nat := match vshape with
+    | 1 => (K, N) | 2 => (N * K, 1) | 3 => (0, 0) | 4 => (N + 1, K) | _ => (N, K)
   let inp : Input String AnyW Float :=
     { directed := dir, assort, ik, starts := rc.starts, ends := rc.ends, weights := rc.weights,
       r, maxIt, nConv, affinity := aff.toArray,
       priorU := ⟨N, K, 1, Array.replicate (N * K) prior⟩,
-      priorV := ⟨N, K, 1, Array.replicate (N * K) prior⟩ }
+      priorV := ⟨vr, vc, 1, Array.replicate (vr * vc) prior⟩ }
   -- draws: generous upper bound on what r realizations can consume
   let nL := if rc.starts.length = 0 then 0 else rc.weights.length / rc.starts.length
   let perReal := nL * K * K + 2 * N * K
@@ -190,7 +193,8 @@ def opRun : P (List String) := do
   | .ok o =>
     let mut out : Array String := #[kv "err" "0",
       kv "labels" (",".intercalate o.labels), kv "u" (tensF o.u),
-      kv "v" (tensF o.v), kv "aff" (showFs o.affinity.toList),
+      kv "v" (tensF o.v), kv "udims" s!"{o.u.R},{o.u.C}", kv "vdims" s!"{o.v.R},{o.v.C}",
+      kv "aff" (showFs o.affinity.toList),
       kv "iters" (showNats o.report.iters),
       kv "reasons" (",".intercalate (o.report.reasons.map Reason.name)),
       kv "L2s" (showFs o.report.L2s), kv "seed" (toString seed),
